@@ -408,3 +408,85 @@ def rule_gr_cache_threshold(ctx):
         ctx.violated("CACHETHRESH", key, fg.where(), "GRgetattr discards its copy when `size %s attr_cache`, GRsetattr writes a replaced value through only when `size %s attr_cache`: a value "
                      "of exactly the threshold size is cached by the one and thrown away by the other" % (discard[0], through[0]))
     return 1
+
+
+def rule_xdr_encode_source(ctx):
+    """XDRENC (C10, C15): the header of a netCDF-format file is read and written by the same routines: the XDR primitives
+    `hdf_xdr_int(xdrs, &x)` decode into x or encode from x, depending on the stream.  Where x is a local, the routine has to load
+    it from the object it is encoding before the call (and store it back afterwards for the decode side).  A local that reaches
+    the primitive with nothing but its zero initialiser (or nothing at all) makes every *rewrite* of the header store 0 for that
+    field — a count of 0, a type of 0, a wrong magic number — and the file no longer opens.  Calls that sit in a decode-only arm
+    are not instances."""
+    from .facts import kind, strip, walk, render, is_int, int_val, int_name, calls_in
+    from .codec import ast_walk
+    prog = ctx.prog
+    n = 0
+    PRIMS = {"hdf_xdr_int", "hdf_xdr_u_int", "hdf_xdr_long", "hdf_xdr_u_long", "hdf_xdr_enum", "hdf_xdr_short", "hdf_xdr_u_short"}
+    for f in prog.lib_funcs():
+        if not f.rel.startswith("mfhdf/src/") or not f.raw.get("ast"):
+            continue
+        if not any(c[1] in PRIMS for _b, _i, _s, c in f.calls()):
+            continue
+        locals_loaded = {}  # local -> True once it has been given a non-constant value (source order)
+        order = []
+
+        def vis(nd, st):
+            exprs = []
+            if nd[0] == "s":
+                exprs = [nd[1]]
+            elif nd[0] in ("if", "while", "switch") and nd[1] is not None:
+                exprs = [nd[1]]
+            elif nd[0] == "for":
+                exprs = [x for x in nd[1:4] if x is not None]
+            for e in exprs:
+                order.append((e, list(st), nd))
+            return True
+
+        ast_walk(f.raw["ast"], vis)
+        occ = {}
+        for e, st, nd in order:
+            if kind(e) == "decl":
+                for d in e[1]:
+                    if d[2] is not None:
+                        v = strip(d[2])
+                        if not is_int(v) or (int_name(v) and int_val(v) != 0):
+                            locals_loaded[d[0]] = True
+                continue
+            # calls first: the primitive sees the value from *before* this statement's own assignments unless they are its arguments
+            for c in calls_in(e, True):
+                if c[1] not in PRIMS or len(c[3]) < 2:
+                    continue
+                a = strip(c[3][1])
+                if not (kind(a) == "addr" and kind(strip(a[1])) == "var" and strip(a[1])[2] == "l"):
+                    continue
+                v = strip(a[1])[1]
+                decode_only = False
+                chain = st + [nd]
+                for i, s_ in enumerate(st):
+                    if s_[0] == "if":
+                        r = render(s_[1])
+                        if "XDR_DECODE" in r and "==" in r and chain[i + 1] is s_[2]:
+                            decode_only = True
+                        if "XDR_ENCODE" in r and "==" in r and s_[3] is not None and chain[i + 1] is s_[3]:
+                            decode_only = True
+                    if s_[0] == "case" and "XDR_DECODE" in render(s_[1]):
+                        decode_only = True
+                if decode_only:
+                    continue
+                n += 1
+                key = "XDRENC:%s:%s" % (f.name, v)
+                occ[key] = occ.get(key, 0) + 1
+                if occ[key] > 1:
+                    key += "#%d" % occ[key]
+                line = nd[-3] if isinstance(nd[-3], int) else f.line
+                if locals_loaded.get(v):
+                    ctx.holds("XDRENC", key, f.where(line), "`%s` has been loaded from the object before %s() may encode it" % (v, c[1]), nontrivial=True)
+                else:
+                    ctx.violated("XDRENC", key, f.where(line), "%s(xdrs, &%s) also encodes, but `%s` has only its constant initialiser (or none) at this point: a rewritten header stores 0 / garbage for this field" % (c[1], v, v))
+            for x in walk(e, True):
+                if x[0] == "asg" and x[1] == "=" and kind(strip(x[2])) == "var":
+                    # an assignment statement (as opposed to the zero initialiser of the declaration) is a decision about the value
+                    # to encode, also when it stores a constant (`if (*spp == NULL) { count = 0; ...`)
+                    locals_loaded[strip(x[2])[1]] = True
+    ctx.floor("XDRENC", 6, n, "(locals handed to a bidirectional XDR primitive outside decode-only arms)")
+    return n
